@@ -4,6 +4,7 @@ TCP: reliable ordered byte pipes with bounded buffers, chooser-decided
 chunking, latency, short writes; faults stall / black-hole / reset / FIN.
 Datagrams (UDP, AF_PACKET): drop / duplicate / reorder / delay / corrupt.
 '''
+import collections
 import errno
 import itertools
 import socket as _real_socket
@@ -77,6 +78,8 @@ class Pipe:
         self.blackhole = False
         self.dst = None
         self.src = None
+        #: FIFO of chunks (bytes) and FIN markers (None) still in flight
+        self.queue = collections.deque()
 
 
 class TcpConn:
@@ -293,8 +296,8 @@ class StreamSock(SimSocketBase):
             chunks = [data[:cut], data[cut:]]
         elif mode == 2:
             mss = prof['mss'][wld.ch.pick('chunk.mss', len(prof['mss']))]
-            if len(data) // mss > 4096:
-                mss = len(data) // 4096 + 1
+            if len(data) // mss > 256:
+                mss = len(data) // 256 + 1
             chunks = [data[ix:ix + mss] for ix in range(0, len(data), mss)]
         else:
             if len(data) <= 64:
@@ -309,19 +312,29 @@ class StreamSock(SimSocketBase):
             when = max(when, pipe.last_arrival, pipe.stall_until)
             pipe.last_arrival = when
             pipe.inflight += len(chunk)
-            wld.at(when, self._arrive, pipe, chunk)
+            pipe.queue.append(chunk)
+            wld.at(when, self._pump, pipe)
         if len(chunks) > 1:
             wld.count('tcp.chunked')
 
     @staticmethod
-    def _arrive(pipe, chunk):
+    def _pump(pipe):
+        ''' Deliver the head of the in-flight FIFO (one event per item, so
+        the k-th event delivers the k-th item whatever was postponed). '''
         wld = pipe.conn.net.world
         if wld.now < pipe.stall_until:
-            # stalled after scheduling: postpone
-            wld.at(pipe.stall_until, StreamSock._arrive, pipe, chunk)
+            wld.at(pipe.stall_until, StreamSock._pump, pipe)
+            return
+        if not pipe.queue:
+            return
+        chunk = pipe.queue.popleft()
+        dst = pipe.dst
+        if chunk is None:
+            if not pipe.blackhole and not dst._closed:
+                dst.rx_eof = True
+                wld.log('tcp-arrive-fin', pipe.conn.cid, pipe.name)
             return
         pipe.inflight -= len(chunk)
-        dst = pipe.dst
         if pipe.blackhole:
             return
         if dst._closed or dst.rx_err:
@@ -376,20 +389,8 @@ class StreamSock(SimSocketBase):
         lat = self.net.prof['latencies'][0]
         when = max(wld.now + lat, pipe.last_arrival, pipe.stall_until)
         pipe.last_arrival = when
-        wld.at(when, self._arrive_fin, pipe)
-
-    @staticmethod
-    def _arrive_fin(pipe):
-        wld = pipe.conn.net.world
-        if wld.now < pipe.stall_until:
-            wld.at(pipe.stall_until, StreamSock._arrive_fin, pipe)
-            return
-        if pipe.blackhole:
-            return
-        dst = pipe.dst
-        if not dst._closed:
-            dst.rx_eof = True
-            wld.log('tcp-arrive-fin', pipe.conn.cid, pipe.name)
+        pipe.queue.append(None)
+        wld.at(when, self._pump, pipe)
 
     def close(self):
         if self._closed:
